@@ -855,6 +855,7 @@ func schemaRunner(prop string, gopts SchemaGenOpts, rule string, post func(c *SC
 			c19Discriminator(meta)
 			c19ReadWriteOnly(meta)
 			c19Dates(meta)
+			c19ResponseParts(meta)
 		}
 		if prop == "C12" && replay == "" {
 			modesWithDefaults(seed, n/4, meta)
@@ -1208,6 +1209,60 @@ func c19ReadWriteOnly(meta *Meta) {
 			if strings.Contains(msg, marker) {
 				meta.GoViolation = append(meta.GoViolation, map[string]any{"signature": "leak", "cases": []any{map[string]any{"write_only_property_in_response": true, "below_a_property": nested}},
 					"go_observation": msg, "judgement": "a message assembled from reasons alone repeats the value of a write-only property sent in the response: " + msg})
+			}
+		}
+	}
+}
+
+// every part of a response that is judged by a schema is reported through the caller's message function:
+// a refused header value, like a refused body value, does not appear in a message assembled from reasons alone
+func c19ResponseParts(meta *Meta) {
+	const marker = "MARKERhd7Qz"
+	hdr := func(s *openapi3.Schema) *openapi3.HeaderRef {
+		return &openapi3.HeaderRef{Value: &openapi3.Header{Parameter: openapi3.Parameter{Schema: s.NewRef(), Required: true}}}
+	}
+	for _, tc := range []struct {
+		name   string
+		schema *openapi3.Schema
+		value  string
+		body   string
+	}{
+		{"string-maxLength", openapi3.NewStringSchema().WithMaxLength(3), marker, `{"ok":true}`},
+		{"string-enum", openapi3.NewStringSchema().WithEnum("a", "b"), marker, `{"ok":true}`},
+		{"array-maxItems", openapi3.NewArraySchema().WithItems(openapi3.NewStringSchema()).WithMaxItems(1), marker + ",x", `{"ok":true}`},
+		{"array-item-pattern", openapi3.NewArraySchema().WithItems(openapi3.NewStringSchema().WithPattern("^[a-z]$")), "a," + marker, `{"ok":true}`},
+		{"body", openapi3.NewStringSchema(), "fine", `{"ok":"` + marker + `"}`},
+	} {
+		for _, multi := range []bool{false, true} {
+			desc := "d"
+			resp := &openapi3.Response{Description: &desc, Headers: openapi3.Headers{"X-Part": hdr(tc.schema)},
+				Content: openapi3.Content{"application/json": openapi3.NewMediaType().WithSchema(openapi3.NewObjectSchema().WithProperty("ok", openapi3.NewBoolSchema()))}}
+			op := openapi3.NewOperation()
+			op.Responses = openapi3.NewResponses()
+			op.Responses.Set("200", &openapi3.ResponseRef{Value: resp})
+			doc := &openapi3.T{OpenAPI: "3.0.0", Info: &openapi3.Info{Title: "t", Version: "1"}, Paths: openapi3.NewPaths()}
+			route := &routers.Route{Spec: doc, Path: "/r", PathItem: &openapi3.PathItem{Get: op}, Method: "GET", Operation: op}
+			opts := &openapi3filter.Options{MultiError: multi}
+			opts.WithCustomSchemaErrorFunc(func(e *openapi3.SchemaError) string { return e.Reason })
+			in := &openapi3filter.ResponseValidationInput{
+				RequestValidationInput: &openapi3filter.RequestValidationInput{Request: httptest.NewRequest("GET", "/r", nil), Route: route, Options: opts},
+				Status:                 200, Header: http.Header{"Content-Type": []string{"application/json"}, "X-Part": []string{tc.value}}, Options: opts}
+			in.SetBodyBytes([]byte(tc.body))
+			var msg string
+			var err error
+			catchPanic(func() {
+				err = openapi3filter.ValidateResponse(context.Background(), in)
+				if err != nil {
+					msg = err.Error()
+				}
+			})
+			meta.Histogram["response part cases"]++
+			if err == nil {
+				meta.GoViolation = append(meta.GoViolation, map[string]any{"signature": "response-part-not-refused", "cases": []any{map[string]any{"part": tc.name, "multi_error": multi}},
+					"go_observation": "accepted", "judgement": "a response part that violates its schema was accepted"})
+			} else if strings.Contains(msg, marker) {
+				meta.GoViolation = append(meta.GoViolation, map[string]any{"signature": "leak", "cases": []any{map[string]any{"response_part": tc.name, "multi_error": multi}},
+					"go_observation": msg, "judgement": "a message assembled from reasons alone repeats the refused value of a response part: " + msg})
 			}
 		}
 	}
